@@ -18,7 +18,9 @@ RULE = ('KAISA: worlds {1,2,3,4,6,8} (thorough +12,16), every divisor k, constan
         'callback-timing stress on a sample; non-trivial: world>1 and a sub-group collective or checkpoint event; distinct = hash(config, history shape, topology)')
 ASSUMPTIONS = ['asynchronous c10d semantics only (single-stream NCCL ordering hazards are reported as information, not decided)',
                'the DeepSpeed topology and Megatron parallel layers are stand-ins (see DESIGN.md section 2.4)',
-               'a watchdog (180 s per world) turns a harness hang into inconclusive']
+               'a watchdog (180 s per world) turns a harness hang into inconclusive',
+               'a few worlds per shard run as real gloo processes, one interpreter per rank with different PYTHONHASHSEED values; their streamed logs are matched offline '
+               '(a world that does not finish with consistent logs is a counted skip)']
 REQUIRED = ['worlds_run', 'matched_collectives', 'neox_worlds_run']
 
 
@@ -111,6 +113,46 @@ def run_neox(rng, res, idx, tier):
     res.sample(dict(idx=idx, kind='neox', topology=(spec['pp'], spec['dp'], spec['mp']), layers=spec['layers'], history=[e[0] for e in spec['history']]))
 
 
+def run_separate_interpreters(seed, res, idx):
+    """Ranks as separate interpreters with different hash seeds (what torchrun/mpirun give), on real gloo. Every rank
+    streams what it issues to a log; the logs are matched offline, so a mismatch is found also when the world hangs.
+    The model is chosen to contain layers of equal cost (ties are where an interpreter-dependent order would show)."""
+    import copy as _copy
+    from kverif import gen, gloo_xval, scenario
+
+    rng = case_rng(seed, ID, idx, 'interp')
+    W, spec = gen_kaisa(rng, 'quick')
+    W = rng.choice([2, 3, 4])
+    spec['cfg']['k'] = rng.choice(scenario.divisors(W))
+    spec['history'] = [e if e[0] not in ('sd', 'mem') else (e[0], [r for r in e[1] if r < W]) for e in spec['history']][:6]
+    spec['allow_conv'] = False
+    tied = False
+    for j in range(60):
+        spec['model_seed'] = spec['model_seed'] + 1
+        model, _, info = scenario.build_model(spec)
+        dims = [(m.in_features + int(m.bias is not None), m.out_features) for m in gen.eligible_layers(model).values() if hasattr(m, 'in_features')]
+        if len(dims) != len(set(dims)):
+            tied = True
+            break
+    hashseeds = [rng.randrange(1, 2 ** 31) for _ in range(W)]
+    case = dict(interp_idx=idx, W=W, k=spec['cfg']['k'], cfg=spec['cfg'], history=spec['history'], hashseeds=hashseeds, model=info['desc'], tied_costs=tied)
+    finished, err, traces = gloo_xval.run_gloo_traced(_copy.deepcopy(spec), W, hashseeds)
+    if err and 'ConfigRejected' in err:
+        return res.skip('constructor rejected configuration')
+    bad, compared = gloo_xval.match_traces(traces, finished)
+    res.count('separate_interpreter_worlds')
+    res.count('separate_interpreter_ops_matched', compared)
+    if tied:
+        res.count('separate_interpreter_worlds_with_tied_costs')
+    if bad:
+        return res.violation(f'{W} ranks as separate interpreters (hash seeds {hashseeds}, k={spec["cfg"]["k"]}): ' + bad[0] + (f' [the world then {err}]' if err else ''), case)
+    if err and 'rank failed' in err and '/kfac/' in err:
+        return res.violation(f'{W} ranks as separate interpreters: a rank raised inside kfac: ' + err[-300:], case)
+    if err:
+        res.count('separate_interpreter_worlds_unfinished')
+        res.skip('real gloo world did not finish (logs consistent): ' + err[:30])
+
+
 def plan(tier, seed):
     n = tier_value(tier, 320, 10000)
     shards = tier_value(tier, 10, 14)
@@ -128,11 +170,17 @@ def run_shard(spec, res):
             run_neox(case_rng(spec['seed'], ID, i, 'neox'), res, i, spec['tier'])
         else:
             run_kaisa(case_rng(spec['seed'], ID, i), res, i, spec['tier'])
+    for j in range(1 if spec['tier'] == 'quick' else 10):
+        if j and dl.over():
+            break
+        run_separate_interpreters(spec['seed'], res, spec['first'] + j)
 
 
 def replay(case, res):
     import os
     seed = int(os.environ.get('VERIF_SEED', '0'))
+    if 'interp_idx' in case:
+        return run_separate_interpreters(seed, res, case['interp_idx'])
     for tier in ('quick', 'thorough'):
         if case.get('kind') == 'neox':
             run_neox(case_rng(seed, ID, case['idx'], 'neox'), res, case['idx'], tier)
